@@ -1,6 +1,7 @@
 package main
 
 import (
+	"go/token"
 	"fmt"
 	"go/ast"
 	"go/types"
@@ -225,6 +226,9 @@ func (fr *Frame) modContract(fc *FuncContract, c *ssa.CallCommon, ms *modSet, bi
 	for i, p := range fc.Params {
 		paramIdx[p] = i
 	}
+	if fc.AssignsAny {
+		ms.all = true
+	}
 	for _, fx := range fc.Effects {
 		ms.whole("$fx." + fx)
 		for _, g := range effectGhosts[fx] {
@@ -308,6 +312,12 @@ func (fr *Frame) modContract(fc *FuncContract, c *ssa.CallCommon, ms *modSet, bi
 			if id, ok := e.Fun.(*ast.Ident); ok && len(e.Args) == 1 && id.Name == "boxes" {
 				if t, err := resolveTypeExpr(e.Args[0], fc.Scope, w.P); err == nil {
 					ms.whole(heapBoxName(w.sortOf(t)))
+					continue
+				}
+			}
+			if id, ok := e.Fun.(*ast.Ident); ok && len(e.Args) == 1 && id.Name == "arrays" {
+				if t, err := resolveTypeExpr(e.Args[0], fc.Scope, w.P); err == nil {
+					ms.whole(heapSliceNameT(t))
 					continue
 				}
 			}
@@ -408,6 +418,42 @@ func (fr *Frame) loopHeader(li *loopInfo, b *ssa.BasicBlock, preds []*ssa.BasicB
 			enc.assume(Le(IntLit(-1), fr.vals[phi]), "range index")
 		}
 	}
+}
+
+// stableLoad recognises a reference that is re-read inside the construct from a field the construct never
+// writes, of an object defined before it (p.file inside a loop that does not assign any .file): its value is
+// the value at entry.
+func (fr *Frame) stableLoad(r ssa.Value, ms *modSet, entry *State, classify func(ssa.Value) int) *Term {
+	u, ok := r.(*ssa.UnOp)
+	if !ok || u.Op != token.MUL {
+		return nil
+	}
+	fa, ok := u.X.(*ssa.FieldAddr)
+	if !ok || classify(fa.X) != 0 {
+		return nil
+	}
+	if _, isIns := fa.X.(ssa.Instruction); isIns {
+		if _, ok := fr.vals[fa.X]; !ok {
+			return nil
+		}
+	}
+	pt, ok := fa.X.Type().Underlying().(*types.Pointer)
+	if !ok {
+		return nil
+	}
+	w := fr.enc.w
+	s := w.structSort(pt.Elem())
+	name := heapFieldName(s, fa.Field)
+	if ms.all {
+		return nil
+	}
+	if _, written := ms.m[name]; written {
+		return nil
+	}
+	if _, isSlice := r.Type().Underlying().(*types.Slice); isSlice {
+		return nil
+	}
+	return Select(entry.Get(name, arraySort("Int", s.Fields[fa.Field].Sort)), fr.val(fa.X))
 }
 
 func isMonotoneGhost(name string) bool {
@@ -659,8 +705,13 @@ func (fr *Frame) applyHavoc(ms *modSet, st *State, entry *State, classify func(s
 		pointwise := !t.whole && len(so) > 11 && so[:11] == "(Array Int "
 		freshRegion := false
 		var outside []ssa.Value
+		var stable []*Term
 		if pointwise {
 			for _, r := range t.refs {
+				if ref := fr.stableLoad(r, ms, entry, classify); ref != nil {
+					stable = append(stable, ref)
+					continue
+				}
 				switch classify(r) {
 				case 0:
 					outside = append(outside, r)
@@ -689,6 +740,9 @@ func (fr *Frame) applyHavoc(ms *modSet, st *State, entry *State, classify func(s
 					ref = A("s_base", ref)
 				}
 				cur = Store(cur, ref, fv)
+			}
+			for _, ref := range stable {
+				cur = Store(cur, ref, enc.declare("hv_"+name, el))
 			}
 			st.Set(name, enc.define("lh_"+name, so, cur))
 		} else {
